@@ -1,2 +1,25 @@
 import PieModel.Props.C18
-#print axioms PieModel.C18_placeholder
+
+#print axioms PieModel.C18_td_error_reported_and_inconsistent
+#print axioms PieModel.C18_bu_error_scheduled
+#print axioms PieModel.C18_error_step_is_ok
+#print axioms PieModel.C18_checker_error_never_aborts
+#print axioms PieModel.C18_reuse_requires_ok_head
+#print axioms PieModel.C18_reuse_implies_every_check_ok
+#print axioms PieModel.C18_checkDeps_error
+#print axioms PieModel.C18_exec_extends
+#print axioms PieModel.C18_no_reuse_on_error
+#print axioms PieModel.C18_errors_delta_doRead
+#print axioms PieModel.C18_errors_delta_doWrite
+#print axioms PieModel.C18_errors_delta_doWrote
+#print axioms PieModel.C18_errors_delta_reserveRequire
+#print axioms PieModel.C18_errors_delta_updateRequire
+#print axioms PieModel.C18_errors_delta_topDown
+#print axioms PieModel.C18_errors_delta_scheduling
+#print axioms PieModel.C18_errors_delta_bottomUp
+#print axioms PieModel.C18_errors_delta_session
+#print axioms PieModel.C18_errInv_of_ext
+#print axioms PieModel.C18_errInv_preserved
+#print axioms PieModel.C18_errors_delta_op
+#print axioms PieModel.C18_errors_exact
+#print axioms PieModel.C18_error_in_trace_is_reported
